@@ -106,8 +106,9 @@ impl<T> Serialize for BitWriter<T> where T: Fn(u16) -> Result<bool, ExceptionCod
 }
 impl<T> Loggable for BitWriter<T> where T: Fn(u16) -> Result<bool, ExceptionCode> {}
 impl<T> BitWriter<T> where T: Fn(u16) -> Result<bool, ExceptionCode> {
+// [C20] (as for the register writer below: no access to the handler from the decoding path)
 //@fn rodbus/src/common/serialize.rs | Loggable for BitWriter<T>::log | tags=C07,C20 | inherent r28 r10 r10id=0
-//@|    requires self.ser_pre(),      // the writer holds a validated, limited range (of_read_bits / of_read_registers)
+//@|    requires self.range.inner.wf() && self.range.inner.count <= 2000,      // the writer holds a validated, limited range (of_read_bits)
 }
 
 pub open spec fn reported_reg<T: Fn(u16) -> Result<u16, ExceptionCode>>(g: T, start: u16, i: int, v: u16) -> bool {
@@ -160,6 +161,8 @@ impl<T> Serialize for RegisterWriter<T> where T: Fn(u16) -> Result<u16, Exceptio
 }
 impl<T> Loggable for RegisterWriter<T> where T: Fn(u16) -> Result<u16, ExceptionCode> {}
 impl<T> RegisterWriter<T> where T: Fn(u16) -> Result<u16, ExceptionCode> {
+// [C20] decoding (logging) never consults the application handler: the precondition of the getter is deliberately NOT available here,
+// so a call of `(self.getter)(..)` in this function cannot be proved
 //@fn rodbus/src/common/serialize.rs | Loggable for RegisterWriter<T>::log | tags=C07,C20 | inherent r28 r10 r10id=0
-//@|    requires self.ser_pre(),      // the writer holds a validated, limited range (of_read_bits / of_read_registers)
+//@|    requires self.range.inner.wf() && self.range.inner.count <= 125,      // the writer holds a validated, limited range (of_read_registers)
 }
